@@ -231,6 +231,32 @@ def run(ctx):
                     defs.append(render(v)[:60])
                     direct = not sym_contains(v, lambda x: x[0] in ("bin", "un", "const")) and sym_contains(v, lambda x: x[0] == "call" and x[1] == P + inner)
                     okid = okid or direct
+            # ---- OPERATOR: left-to-right evaluation.  Every binary operator of this level is applied to the accumulator in
+            # the iteration that read it, with that iteration's operand as it came back from the nested call: `acc = acc op
+            # inner()`, inside the loop.  Arithmetic on operand values anywhere else (collecting divisors and dividing once,
+            # summing the subtrahends first) regroups the expression: `a/b/c` becomes `a/(b*c)`, which differs in IEEE-754
+            # (1e200/1e200/1e200 is 1e-200, 1e200/(1e200*1e200) is 0).
+            want = {"term": {"Mul", "Div"}, "expr": {"Add", "Sub"}}[outer]
+            inloop = set().union(*[c for c in g.sccs() if len(c) > 1]) if g.sccs() else set()
+            seen_ops, bad = set(), []
+            for b, i, s_ in g.stmts():
+                if s_["k"] != "assign" or s_["rv"]["k"] != "bin" or s_["rv"].get("op") not in ("Add", "Sub", "Mul", "Div"):
+                    continue
+                a_, b_ = s_["rv"]["a"], s_["rv"]["b"]
+                with g.deep():
+                    da, db = g.sym_operand(a_), g.sym_operand(b_)
+                from_inner = lambda x: sym_contains(x, lambda n: n[0] == "call" and n[1] == P + inner)
+                if not (from_inner(da) or from_inner(db)):
+                    continue   # arithmetic on something that is not an operand value (none on the confirmed tree)
+                acc = not s_["p"]["pr"] and s_["p"]["l"] in vlocals and "cp" in a_ and not a_["cp"]["pr"] and a_["cp"]["l"] == s_["p"]["l"]
+                straight = from_inner(db) and not sym_contains(db, lambda n: n[0] in ("bin", "un"))
+                if acc and straight and b in inloop and s_["rv"]["op"] in want:
+                    seen_ops.add(s_["rv"]["op"])
+                else:
+                    bad.append("%s at %s" % (s_["rv"]["op"], g.span(b, i) if hasattr(g, "span") else "bb%d" % b))
+            ctx.check(bool(vlocals) and seen_ops == want and not bad, "ORDER", "C19:OPERATOR:applied-where-read:%s" % outer,
+                      "%s applies each of %s to the accumulator inside the loop, with the operand %s() returned" % (outer, sorted(want), inner),
+                      "%s does not apply every operator to its accumulator as it is read (applied in place: %s; arithmetic on operand values elsewhere: %s): operators of one level are regrouped, `a/b/c` is no longer (a/b)/c" % (outer, sorted(seen_ops), bad or "none"), config, ctx.where(g))
             ctx.check(bool(vlocals) and okid, "IDENTITY", "C19:IDENTITY:%s" % outer, "%s initialises its result from %s()'s value without arithmetic" % (outer, inner),
                       "%s no longer passes a lone operand through unchanged (definitions of the result: %s): `-0.0` evaluates to `+0.0` with the option on, and 1/(-0.0) to +inf" % (outer, defs), config, ctx.where(g))
         # ---- FLAGS: the unit bookkeeping of a sub-expression (used-a-unit, saw-a-bare-term) travels unchanged through the
